@@ -85,6 +85,7 @@ type impl struct {
 	tokenFlagged bool
 	pendingViolation string
 	earlyAtClose, earlyTokAtClose int
+	discFlagged bool
 	downAliases map[*broker.Inc]map[uint32]string
 	aliasSeq    int
 	aliasClash  string
@@ -472,6 +473,10 @@ func (i *impl) summary() string {
 		if _, ok := r.Msg.(*message.Disconnect); ok {
 			nd++
 		}
+	}
+	if nd > 1 && i.pendingViolation == "" && !i.discFlagged {
+		i.discFlagged = true
+		i.pendingViolation = fmt.Sprintf("the broker received %d Disconnect messages from one connection: Close must send exactly one", nd)
 	}
 	if i.closed && nd == 0 && i.discSent == 1 {
 		nd = 1 // Close while no transport was up: the Disconnect cannot reach anybody; the model counts the Close
@@ -882,6 +887,27 @@ func (i *impl) exec(h *lp.H, op string) string {
 		}
 		ev0, cl0 := atomic.LoadInt32(&st.resumedEv), atomic.LoadInt32(&st.closedEv)
 		msg := hh.msg
+		if w[2] == "conflict" {
+			// the broker still holds the old attachment: it answers the first resume request with RESUME_REQUEST_CONFLICT; the
+			// stream must ask again (not take the conflict for an answer), and the second request is accepted
+			i.mu.Lock()
+			hh.id = uuid.Nil // answered with a conflict: not counted as answered (like a refusal)
+			i.mu.Unlock()
+			i.b.Lock()
+			i.b.ResumeCodes = []message.ResultCode{message.ResultCodeResumeRequestConflict}
+			i.b.Unlock()
+			hh.inc.Respond(msg)
+			var again *held
+			if !waitUntil(wd, func() bool { again = i.heldFor(st); return again != nil }) {
+				h.Violate(fmt.Sprintf("stream %d: the broker answered its resume request with a conflict and no second resume request followed within %v (resumed notifications %d, closed %d)", sid, wd, atomic.LoadInt32(&st.resumedEv)-ev0, atomic.LoadInt32(&st.closedEv)-cl0))
+				break
+			}
+			if atomic.LoadInt32(&st.resumedEv) > ev0 {
+				h.Violate(fmt.Sprintf("stream %d was reported resumed although the broker had only answered with a conflict", sid))
+			}
+			hh, msg = again, again.msg
+			w[2] = "ok"
+		}
 		if w[2] == "ok" {
 			i.mu.Lock()
 			hh.msg = nil
@@ -1124,10 +1150,21 @@ func (i *impl) exec(h *lp.H, op string) string {
 		ctx, cancel := context.WithTimeout(context.Background(), time.Second)
 		t0 := time.Now()
 		var err error
-		if len(w) > 1 && w[1] == "twice" { // two concurrent Close calls
+		if len(w) > 1 && w[1] == "twice" { // two concurrent Close calls, over a link that is slow for a moment: exactly one Disconnect
+			gate := make(chan struct{})
+			i.b.Lock()
+			i.b.HoldWrites = gate
+			i.b.Unlock()
 			var wg sync.WaitGroup
 			wg.Add(1)
 			go func() { defer wg.Done(); i.conn.Close(ctx) }()
+			go func() {
+				time.Sleep(30 * time.Millisecond)
+				i.b.Lock()
+				i.b.HoldWrites = nil
+				i.b.Unlock()
+				close(gate)
+			}()
 			err = i.conn.Close(ctx)
 			wg.Wait()
 		} else {
@@ -1440,7 +1477,7 @@ func main() {
 					closedS[k] = true
 					sig += "R"
 				} else {
-					do(fmt.Sprintf("resume %d ok", k))
+					do(fmt.Sprintf("resume %d %s", k, []string{"ok", "ok", "conflict"}[rng.Intn(3)]))
 					sig += "r"
 				}
 				delete(resuming, k)
